@@ -1,1 +1,128 @@
-From Props Require Import Heap PropsModel.
+(* Properties_C13.v -- C13: StorageProperties copies are deep, complete and independent.
+
+   The model (PropsModel.v over Heap.v) follows props/storage.c with the repairs fixes/01..03 applied.  A history is any
+   list of calls (init, set_uri, set_external_metadata, set_access_key_and_secret, set_dimension,
+   set_enable_multiscale, copy, destroy, and realloc move/stay scripts) applied to n zero-initialised objects; it is
+   well-formed (wf_hist) when object indices exist, byte counts do not exceed the caller's buffers, init is applied
+   only to an object that owns nothing, and copy is applied to two different objects.  Every theorem quantifies over
+   all n, all well-formed histories of any length, all strings (NULL, empty, long, not terminated, shorter counts),
+   all dimension counts, all realloc scripts.
+
+   This file contains statements only; each is closed by `exact` of a lemma of PropsProofs.v. *)
+From Coq Require Import NArith ZArith List Bool.
+From Props Require Import Heap HeapFacts PropsModel PropsString PropsInv PropsSteps PropsCopy PropsProofs.
+Import ListNotations.
+
+(* After copy(dst, src) the call has returned 1 and dst equals src in every field: the four strings by content
+   (sview: NULL and "" are the same value), first_frame_id, pixel scale, multiscale flag, the number of dimensions
+   and every dimension (name by content, kind, array size, chunk size, shard size). *)
+Theorem C13_copy_equal : forall n ops d s,
+  wf_hist (init_state n) (ops ++ [OCopy d s]) = true ->
+  let st := run (init_state n) ops in
+  let st' := fst (step st (OCopy d s)) in
+  snd (step st (OCopy d s)) = true /\
+  exists pd ps,
+    nth_error (objs st') d = Some pd /\ nth_error (objs st') s = Some ps /\
+    oview (hp st') pd = oview (hp st') ps.
+Proof. exact copy_equal. Qed.
+Print Assumptions C13_copy_equal.
+
+(* copy leaves the source untouched: the struct is bit-identical, every allocation it owns keeps its content. *)
+Theorem C13_src_untouched : forall n ops d s,
+  wf_hist (init_state n) (ops ++ [OCopy d s]) = true ->
+  let st := run (init_state n) ops in
+  let st' := fst (step st (OCopy d s)) in
+  nth_error (objs st') s = nth_error (objs st) s /\
+  forall ps, nth_error (objs st) s = Some ps ->
+    (forall x, owned (hp st) ps x -> cells (hp st') x = cells (hp st) x) /\
+    oview (hp st') ps = oview (hp st) ps.
+Proof. exact src_untouched. Qed.
+Print Assumptions C13_src_untouched.
+
+(* No allocation is reachable through two different pointers: neither from two objects nor twice within one object
+   (qi, qj range over the four strings, the dimension array and every dimension name). *)
+Theorem C13_separation : forall n ops,
+  wf_hist (init_state n) ops = true ->
+  let st := run (init_state n) ops in
+  forall i j p q qi qj x,
+    nth_error (objs st) i = Some p -> nth_error (objs st) j = Some q ->
+    opoints (hp st) p qi = Some x -> opoints (hp st) q qj = Some x ->
+    i = j /\ qi = qj.
+Proof. exact separation. Qed.
+Print Assumptions C13_separation.
+
+(* [bad] is raised by a free/realloc of an allocation that is not live, by any access through a released
+   allocation, by a write beyond an allocation and by a NULL dereference: none happens.  After destroying every
+   object no allocation is live: together with "never freed while not live", each allocation is released exactly once. *)
+Theorem C13_free_once : forall n ops,
+  wf_hist (init_state n) ops = true ->
+  bad (hp (run (init_state n) ops)) = false /\
+  wf_hist (init_state n) (ops ++ destroy_all n) = true /\
+  let st' := run (init_state n) (ops ++ destroy_all n) in
+  bad (hp st') = false /\ forall x, cells (hp st') x = None.
+Proof. exact free_once. Qed.
+Print Assumptions C13_free_once.
+
+(* Every stored string (the four strings, every dimension name) is NULL or owned (is_ref = 0), lies inside a live
+   allocation, has nbytes >= 1 and content[nbytes-1] = 0. *)
+Theorem C13_terminated : forall n ops,
+  wf_hist (init_state n) ops = true ->
+  let st := run (init_state n) ops in
+  forall i p q s, nth_error (objs st) i = Some p -> ostring_at (hp st) p q = Some s ->
+    match str s with
+    | None => True
+    | Some x => is_ref s = false /\
+                exists data, cells (hp st) x = Some (PBytes data) /\ 1 <= nbytes s /\ nbytes s <= length data /\
+                             nth (nbytes s - 1) data 1%N = 0%N
+    end.
+Proof. exact terminated. Qed.
+Print Assumptions C13_terminated.
+
+(* ------------------------------------------------------------------------------------------------ non-vacuity *)
+Definition c (l : list N) : cstr := mkC (Some l) (length l).
+
+(* object 0: uri "abc", NULL metadata, two dimensions, slot 0 set twice (the old name must be released), slot 1 with a
+   name that is not terminated; object 1: three dimensions, credentials, a uri that grows (realloc, in place then moved) *)
+Definition ex_hist : list op :=
+  [ OInit 0 7 (c [97; 98; 99; 0]%N) (mkC None 0) 1 2 2;
+    OSetDim 0 0 (c [120; 0]%N) 0 10 5 1;
+    OSetDim 0 1 (c [121; 122]%N) 1 11 6 2;
+    OSetDim 0 0 (c [119; 118; 0]%N) 2 12 7 3;
+    OInit 1 9 (c [100; 0]%N) (c [97; 98; 99; 0]%N) 3 4 3;
+    OSetDim 1 2 (c [116; 0]%N) 2 1 1 1;
+    OSetKeys 1 (c [107; 0]%N) (c [115; 115; 0]%N);
+    OMoves [false; true];
+    OSetUri 1 (c [1; 2; 3; 0]%N);
+    OSetUri 1 (c [1; 2; 3; 4; 5; 6; 7; 8; 9; 0]%N);
+    OSetMulti 0 1 ].
+
+(* the hypotheses of C13_copy_equal / C13_src_untouched hold for a copy over a destination that has dimensions from a
+   source that has (other) dimensions; also for the reverse direction, a third object, and a repeated copy *)
+Example ex_wf : wf_hist (init_state 3) (ex_hist ++ [OCopy 1 0]) = true.
+Proof. vm_compute. reflexivity. Qed.
+
+Example ex_wf_more : wf_hist (init_state 3) ((ex_hist ++ [OCopy 1 0; OCopy 2 1; OCopy 0 2; OCopy 0 2; ODestroy 2; OCopy 1 2]) ++ [OCopy 2 0]) = true.
+Proof. vm_compute. reflexivity. Qed.
+
+(* the state the copy starts from is not trivial: 13 allocations were made, 11 are live, both objects have dimensions *)
+Example ex_before :
+  let st := run (init_state 3) ex_hist in
+  next (hp st) = 13 /\
+  length (filter (fun x => match cells (hp st) x with Some _ => true | None => false end) (seq 0 13)) = 11 /\
+  map (fun p => dsize (dims p)) (objs st) = [2; 3; 0].
+Proof. vm_compute. auto. Qed.
+
+(* and the copy produces the source's value (name "yz" was stored as "y\0") *)
+Example ex_after :
+  let st := fst (step (run (init_state 3) ex_hist) (OCopy 1 0)) in
+  option_map (oview (hp st)) (nth_error (objs st) 1) =
+  Some (mkV [97; 98; 99; 0]%N [0]%N [0]%N [0]%N 7 1 2 1 2
+            [([119; 118; 0]%N, 2, 12, 7, 3)%N; ([121; 0]%N, 1, 11, 6, 2)%N]).
+Proof. vm_compute. reflexivity. Qed.
+
+(* C13_free_once on this history: something is live before, nothing after destroying every object *)
+Example ex_released :
+  let st' := run (init_state 3) ((ex_hist ++ [OCopy 1 0; OCopy 2 1]) ++ destroy_all 3) in
+  bad (hp st') = false /\ next (hp st') = 25 /\
+  filter (fun x => match cells (hp st') x with Some _ => true | None => false end) (seq 0 25) = [].
+Proof. vm_compute. auto. Qed.
